@@ -205,6 +205,7 @@ def decOutcome (s : String) : Option Outcome :=
   | "e" => if rest == "" then some .beforeErr else none
   | "D" => if rest == "" then some .deadlineCtx else none
   | "L" => rest.toNat?.map .lateCancel
+  | "T" => if rest == "" then some .lateTransport else none
   | _ => none
 
 def decScript (s : String) : Option (List Outcome) := (splitList "," s).mapM decOutcome
